@@ -88,6 +88,7 @@ func c07Programs(tier string) []string {
 	// control-flow objects (break, continue, return) in every expression position
 	for _, ctl := range []string{"break", "continue", "return", "return a"} {
 		for _, shape := range []string{"[%]", "[%]==[%]", "f(%)", "{1:%}", "{%:1}", "(%)+1", "1+(%)", "-(%)", "!(%)", "(%)[0]", "[1,2][%]", "v=%; v", "len(%)", "print(%)", "catch(%)", "quote(%)",
+			"catch(%) == catch(%)", "v=catch(%); v == v", "m={}; m[catch(%)]=1", "{catch(%): 1}", "[catch(%)] == [catch(%)]", "catch(%) < catch(%)", "v=catch(if true {%}); v == v",
 			"for 2 {[%]}", "for i=2 {v=[%]}; v", "func(){[%]}()", "func(){(%)+1}()", "if % {1} else {2}", "for % {1}", "for i = % {i}", "(%)==(%)", "(%)<(%)", "{1:[%]}[1]", "func g(u){u}; g([%])", "(%).k", "(%)(1)", "% ; 1"} {
 			add("func f(u){u}; " + strings.ReplaceAll(shape, "%", ctl))
 		}
@@ -117,6 +118,12 @@ func c07Programs(tier string) []string {
 			add("func f(u,v,w){len(u)}; f(1, " + arg + ", " + arg + ")")
 		}
 	}
+	// loops inside loops whose error is swallowed; function bodies that are only comments
+	ps = append(ps,
+		"for i=2 {catch(for j=2 {a/(b-b)})}", "for i=2 {log(for j=2 {1/0})}", "for i=2 {for j=2 {catch(for k=2 {[1][5]})}}", "func f(n){for i=n {catch(for j=2 {error(\"x\")})}}; f(c&3)",
+		"for i=2 {catch(for j=[1,2] {1/0})}", "for i=2 {x = catch(for j=2 {break})}", "for i=3 {catch(for j=2 {if j==1 {return 5}})}",
+		"f = () => {/* c */}; f()", "(() => {// c\n})()", "func(){/* c */}()", "f = x => {/* c */ /* d */}; f(1)", "func g(){// only\n}; g()", "m = macro(u){/* c */}; m(1)", "f = () => {}; f()",
+	)
 	ps = append(ps,
 		"v=[1,2]; v[1]=macro(x){x}", "v={}; v.k=macro(){1}", "func f(u){u}; f(macro(x){x})", "[macro(x){x}]", "macro(x){x}(1)", "m=macro(){}; m()", "m=macro(u){}; m(a)", "macro(x){x}",
 		"m=macro(u){quote(unquote(u))}; m=1; m", "m=macro(u){quote(unquote(v))}; m(a)", "m=macro(u){quote(unquote(u, u))}; m(a)", "m=macro(u){quote()}; m(a)", "m=macro(u){quote(1, 2)}; m(a)",
